@@ -89,6 +89,9 @@ DagIds == 50001..50006
 IsTree(t) == t < 50000
 
 Tab(t) == IF IsTree(t) THEN TreeTab(t) ELSE DagTab(t)
+(* every tree of depth exactly 2 (at least one operand is itself a combination) *)
+AllDepth2 == {136 + o * 136 * 136 + x * 136 + y : o \in 0..1, x \in 0..135, y \in 0..135}
+             \ {136 + o * 136 * 136 + x * 136 + y : o \in 0..1, x \in 0..7, y \in 0..7}
 NoTab == <<None, None, None, None, None, None, None>>
 T == tab
 
